@@ -2,6 +2,7 @@ package main
 
 import (
 	"fmt"
+	"go/token"
 	"go/types"
 	"strings"
 
@@ -18,6 +19,7 @@ func runC14(c *Ctx) {
 	m := buildTermModel(c)
 	// after a read failure the channel is torn down and reported whatever the writer is doing (= R12.4)
 	defer ruleChannelTeardown(c, m, "R14.6")
+	defer ruleEveryPeerAccepted(c, "R14.7")
 
 	// R14.1
 	r.Rule("R14.1", "deadline armed afresh per call: in timednetconn.conn.Read / Write (and wrappedPacketConn.Write) the I/O call on the wrapped connection is dominated, in the same invocation and unconditionally, by "+
@@ -143,9 +145,19 @@ func runC14(c *Ctx) {
 				}
 			}
 		}
-		if len(conns) != 1 {
+		if len(conns) == 0 || len(conns) > 3 {
 			r.Fail("R14.3", name, c.Pos(fn.Pos()), fmt.Sprintf("%d connect() calls", len(conns)))
 			continue
+		}
+		// several attempt sites (a first attempt followed by a retry loop) are one reconnect loop: every condition below
+		// is stated for "an attempt", whichever site makes it
+		isAttempt := func(in ssa.Instruction) bool {
+			for _, k := range conns {
+				if in == ssa.Instruction(k) {
+					return true
+				}
+			}
+			return false
 		}
 		conn := conns[0].(*ssa.Call)
 		var probs []string
@@ -174,7 +186,7 @@ func runC14(c *Ctx) {
 						stopped = true
 						break
 					}
-					if in == ssa.Instruction(conn) {
+					if isAttempt(in) {
 						return true
 					}
 				}
@@ -213,7 +225,7 @@ func runC14(c *Ctx) {
 			if len(first.Instrs) > 0 {
 				if isSet(first.Instrs[0]) {
 					unset = false
-				} else if _, ok := pathExistsAvoiding(first.Instrs[0], func(in ssa.Instruction) bool { return in == ssa.Instruction(conn) }, isSet); ok || first.Instrs[0] == ssa.Instruction(conn) {
+				} else if _, ok := pathExistsAvoiding(first.Instrs[0], isAttempt, isSet); ok || isAttempt(first.Instrs[0]) {
 					unset = true
 				}
 			}
@@ -225,25 +237,69 @@ func runC14(c *Ctx) {
 				probs = append(probs, "the very first connection attempt is delayed")
 			}
 		}
-		// after a failed connect
-		var connErr ssa.Value
-		for _, rf := range *conn.Referrers() {
-			if e, ok := rf.(*ssa.Extract); ok && e.Index == 1 {
-				connErr = e
+		// after a failed attempt: the test of its error (directly, or of the variable that joins the errors of all sites)
+		errOf := map[ssa.Value]bool{}
+		valOf := map[ssa.Value]bool{}
+		for _, k := range conns {
+			for _, rf := range *k.(*ssa.Call).Referrers() {
+				if e, ok := rf.(*ssa.Extract); ok {
+					if e.Index == 1 {
+						errOf[e] = true
+					} else if e.Index == 0 {
+						valOf[e] = true
+					}
+				}
 			}
 		}
-		errIf, failed, succeeded := nilGuard(fn, connErr)
-		if errIf == nil {
+		joins := func(v ssa.Value, set map[ssa.Value]bool) bool {
+			if set[v] {
+				return true
+			}
+			p, ok := v.(*ssa.Phi)
+			if !ok {
+				return false
+			}
+			for _, e := range p.Edges {
+				if !set[e] {
+					return false
+				}
+			}
+			return len(p.Edges) > 0
+		}
+		type guard struct {
+			iff               *ssa.If
+			failed, succeeded *ssa.BasicBlock
+		}
+		var guards []guard
+		for _, iff := range ifsIn(fn) {
+			b, ok := iff.Cond.(*ssa.BinOp)
+			if !ok || !isNilConst(b.Y) || !joins(b.X, errOf) {
+				continue
+			}
+			switch b.Op {
+			case token.NEQ:
+				guards = append(guards, guard{iff, iff.Block().Succs[0], iff.Block().Succs[1]})
+			case token.EQL:
+				guards = append(guards, guard{iff, iff.Block().Succs[1], iff.Block().Succs[0]})
+			}
+		}
+		if len(guards) == 0 {
 			probs = append(probs, "the connect error is not tested")
-		} else {
-			if reachWithout(failed) {
+		}
+		for _, g := range guards {
+			if reachWithout(g.failed) {
 				probs = append(probs, "after a failed connection attempt the next attempt is made without waiting reconnectPeriod (busy loop)")
 			}
-			if !reachFrom(failed, nil, nil)[conn.Block()] {
+			again := false
+			for _, k := range conns {
+				if reachFrom(g.failed, nil, nil)[k.Block()] || g.failed == k.Block() {
+					again = true
+				}
+			}
+			if !again {
 				probs = append(probs, "after a failed connection attempt no further attempt is made")
 			}
 		}
-		_ = succeeded
 		// returns
 		for _, ret := range retInstrs(fn) {
 			if len(ret.Results) != 3 {
@@ -252,10 +308,16 @@ func runC14(c *Ctx) {
 			e := ex(ret.Results[2])
 			switch {
 			case e == "nil":
-				if ex(ret.Results[1]) != ex(conn)+"#0" {
+				if !joins(ret.Results[1], valOf) {
 					probs = append(probs, "success return does not hand out the connection just established")
 				}
-				if errIf != nil && !edgeMustPass(fn, edge{errIf.Block(), succeeded}, ret.Block()) {
+				okEdge := len(guards) == 0
+				for _, g := range guards {
+					if edgeMustPass(fn, edge{g.iff.Block(), g.succeeded}, ret.Block()) {
+						okEdge = true
+					}
+				}
+				if !okEdge {
 					probs = append(probs, "success return reachable although connect failed")
 				}
 			case e == "gomavlib.errTerminated":
@@ -281,6 +343,7 @@ func runC14(c *Ctx) {
 				probs = append(probs, "provide returns the error "+e+" (the provider panics on anything but errTerminated)")
 			}
 		}
+		_ = conn
 		r.Check(len(probs) == 0, "R14.3", name, c.Pos(fn.Pos()), "first attempt immediate, later attempts after reconnectPeriod, exits only with a connection or on close", strings.Join(probs, "; "))
 		// connect(): errors are the dial/open error, never errTerminated
 		if cf := c.FnOpt("root", tname+".connect"); cf != nil {
@@ -454,4 +517,54 @@ func edgeMustPassBlock(fn *ssa.Function, via, target *ssa.BasicBlock) bool {
 		return true
 	}
 	return !reachFrom(fn.Blocks[0], nil, map[*ssa.BasicBlock]bool{via: true})[target]
+}
+
+// ruleEveryPeerAccepted (R14.7): a server endpoint gives every peer its own channel. The listeners are created
+// without a filter on who may connect: the UDP listener is udp.Listen, or a udp.ListenConfig whose AcceptFilter is
+// unset (a filter on the first datagram refuses peers whose datagrams are not frame-aligned, e.g. serial-to-UDP
+// bridges), and every connection returned by Accept is handed on (no error-free path of provide drops it).
+func ruleEveryPeerAccepted(c *Ctx, rule string) {
+	r := c.R
+	r.Rule(rule, "server endpoints give every peer a channel: the UDP listener is created without an accept filter (udp.Listen, or udp.ListenConfig with AcceptFilter unset) and endpointServer.provide returns the connection Accept yielded", 2)
+	ini := c.Fn("root", "endpointServer.initialize")
+	prov := c.Fn("root", "endpointServer.provide")
+	if ini == nil || prov == nil {
+		return
+	}
+	r.Functions[fnQual(ini)] = true
+	r.Functions[fnQual(prov)] = true
+	n, bad := 0, ""
+	for _, fn := range append([]*ssa.Function{ini}, ini.AnonFuncs...) {
+		for _, ci := range callsIn(fn, func(nm string, _ *ssa.CallCommon) bool {
+			return nm == "udp.Listen" || nm == "(udp.ListenConfig).Listen"
+		}) {
+			n++
+			if calleeName(ci.Common()) == "(udp.ListenConfig).Listen" {
+				a := underlyingAlloc(ci.Common().Args[0])
+				if a == nil {
+					bad = "the UDP listener is created from a configuration the rule cannot read at " + c.Pos(ci.Pos())
+					continue
+				}
+				if v := litFields(a)["AcceptFilter"]; v != nil && !isNilConst(v) {
+					bad = "the UDP listener at " + c.Pos(ci.Pos()) + " has an AcceptFilter: a peer whose first datagram does not pass it never gets a channel (datagram boundaries need not be frame boundaries)"
+				}
+			}
+		}
+	}
+	if n == 0 {
+		bad = "no UDP listener creation (udp.Listen / udp.ListenConfig.Listen) found in endpointServer.initialize"
+	}
+	r.Check(bad == "", rule, "endpointServer UDP listener", c.Pos(ini.Pos()), "no accept filter", bad)
+	// provide: the accepted connection is what is returned with a nil error
+	okRet, nRet := true, 0
+	for _, ret := range retInstrs(prov) {
+		if len(ret.Results) != 3 || !isNilConst(ret.Results[2]) {
+			continue
+		}
+		nRet++
+		if !strings.Contains(ex(ret.Results[1]), ".Accept(") {
+			okRet = false
+		}
+	}
+	r.Check(okRet && nRet > 0, rule, "endpointServer.provide hands on what Accept yields", c.Pos(prov.Pos()), "the accepted connection (wrapped with the timeouts) is returned", "endpointServer.provide does not return the connection obtained from Accept on its successful path")
 }
